@@ -72,6 +72,12 @@ def main():
         out["demo_unpatched"] = demo(seed, root, libdir_for(root))
         r = run(["git", "-C", root, "apply", patch])
         if r.returncode:
+            # patch written against an earlier commit of /repo (before later fix: commits): three-way apply, which also
+            # touches the index - unstaged again at once, so that `git checkout -- .` restores the tree afterwards
+            r = run(["git", "-C", root, "apply", "--3way", patch])
+            run(["git", "-C", root, "reset", "-q"])
+        if r.returncode:
+            run(["git", "-C", root, "checkout", "--", "."])
             raise SystemExit("patch does not apply to /repo: " + r.stderr)
     else:
         root = tempfile.mkdtemp(prefix="seedwt_", dir="/var/tmp")
